@@ -252,6 +252,165 @@ def gen_syn_tables(rng, n):
     return cases
 
 
+# ------------------------------------------------------------------ TZif bytes (RFC 8536), independent of muduo and of the model
+def py_tzif_block(b, pos, w):
+    """(offs, trans, end position) of the data block whose six counts start at pos; None if it does not fit"""
+    if pos + 24 > len(b):
+        return None
+    isut, isstd, leap, timecnt, typecnt, charcnt = struct.unpack(">6l", b[pos:pos + 24])
+    q = pos + 24
+    need = timecnt * w + timecnt + typecnt * 6 + charcnt + leap * (w + 4) + isstd + isut
+    if min(isut, isstd, leap, timecnt, typecnt, charcnt) < 0 or q + need > len(b):
+        return None
+    ts = struct.unpack(">%d%s" % (timecnt, "l" if w == 4 else "q"), b[q:q + timecnt * w])
+    q += timecnt * w
+    idx = list(b[q:q + timecnt])
+    q += timecnt
+    offs = [struct.unpack(">l", b[q + 6 * i:q + 6 * i + 4])[0] for i in range(typecnt)]
+    q += 6 * typecnt + charcnt + leap * (w + 4) + isstd + isut
+    return offs, list(zip(ts, idx)), q, leap
+
+
+def py_tzif(b):
+    """what RFC 8536 says a reader without leap-second support gets out of the file: the table of the 64-bit
+    block of a version-2 file, of the 32-bit block otherwise (muduo documents that it reads the 32-bit data
+    unless the version byte is '2'); None when the file is not a well-formed leap-second-free TZif file"""
+    if len(b) < 44 or b[:4] != b"TZif":
+        return None
+    r1 = py_tzif_block(b, 20, 4)
+    if r1 is None:
+        return None
+    if b[4:5] != b"2":
+        offs, trans, q, leap = r1
+    else:
+        q1 = r1[2]
+        if b[q1:q1 + 4] != b"TZif":
+            return None
+        r2 = py_tzif_block(b, q1 + 20, 8)
+        if r2 is None:
+            return None
+        offs, trans, q, leap = r2
+    if leap != 0 or any(i >= len(offs) for (u, i) in trans):
+        return None
+    return Table(offs, trans)
+
+
+def py_tzif_encode_block(tb, w, rng):
+    k = len(tb.offs)
+    abbr = bytes(rng.randrange(65, 91) for _ in range(rng.choice([0, 4, 8]))) + b"\0"
+    nstd = rng.choice([0, k])
+    nut = rng.choice([0, k])
+    out = struct.pack(">6l", nut, nstd, 0, len(tb.trans), k, len(abbr))
+    out += b"".join(struct.pack(">l" if w == 4 else ">q", u) for (u, i) in tb.trans)
+    out += bytes(i for (u, i) in tb.trans)
+    out += b"".join(struct.pack(">lBB", o, rng.randrange(2), 0) for o in tb.offs)
+    return out + abbr + bytes(rng.randrange(2) for _ in range(nstd)) + bytes(rng.randrange(2) for _ in range(nut))
+
+
+def py_tzif_encode(tb, version, rng):
+    hdr = lambda v: b"TZif" + v + bytes(15)
+    if version == b"2":
+        t1 = Table(tb.offs, [(u, i) for (u, i) in tb.trans if -2 ** 31 <= u < 2 ** 31])
+        return hdr(version) + py_tzif_encode_block(t1, 4, rng) + hdr(version) + py_tzif_encode_block(tb, 8, rng) + b"\nUTC0\n"
+    return hdr(version) + py_tzif_encode_block(tb, 4, rng)
+
+
+def leap_files(n):
+    out = []
+    for d, ds, fs in os.walk(os.path.join(ZONEROOT, "right")):
+        ds.sort()
+        for f in sorted(fs):
+            out.append(os.path.join(d, f))
+    return out[::max(1, len(out) // n)][:n] if out else []
+
+
+def tzif_mutations(b, rng, n):
+    """malformed variants of a real file: truncations at and around every section boundary, wrong magic,
+    every version byte, counts changed (also to negative values whose outcome is defined), indices out of range,
+    leap-second records announced, first-block counts that make the version-2 skip land elsewhere"""
+    out = []
+    c1 = struct.unpack(">6l", b[20:44])
+    n1 = 5 * c1[3] + 6 * c1[4] + c1[5] + 8 * c1[2] + c1[1] + c1[0]
+    h2 = 44 + n1
+    cuts = set([0, 3, 4, 5, 19, 20, 43, 44, 44 + 4 * c1[3], 44 + 5 * c1[3], 44 + 5 * c1[3] + 6 * c1[4], h2 - 1, h2, h2 + 4, h2 + 20, h2 + 43, h2 + 44,
+                len(b) - 1, len(b)])
+    if len(b) > h2 + 44:
+        c2 = struct.unpack(">6l", b[h2 + 20:h2 + 44])
+        q = h2 + 44
+        for step in (8 * c2[3], c2[3], 6 * c2[4], c2[5], c2[1], c2[0]):
+            q += step
+            cuts |= set([q - 1, q, q + 1])
+    for c in sorted(cuts):
+        if 0 <= c <= len(b):
+            out.append(b[:c])
+    out.append(b"TZiF" + b[4:])
+    out.append(b[:h2] + b"TZjf" + b[h2 + 4:])
+    for v in (b"\0", b"1", b"2", b"3", b"4", b"\x32\x00"[:1]):
+        out.append(b[:4] + v + b[5:])
+        out.append(b[:h2 + 4] + v + b[h2 + 5:])
+
+    def setcount(buf, base, k, v):
+        return buf[:base + 4 * k] + struct.pack(">l", v) + buf[base + 4 * k + 4:]
+    for base in (20, h2 + 20):
+        for k in range(6):
+            for v in (0, 1, -1, 2, c1[4], c1[4] + 1, 255, 256, 5000):
+                if k == 5 and v < 0 and (base != 20 or b[4:5] != b"2"):
+                    continue     # charcnt < 0 in a block that is read: char buf[-1], undefined
+                out.append(setcount(b, base, k, v))
+    for _ in range(n):
+        m = bytearray(b)
+        r = rng.random()
+        if r < 0.5 and len(b) > h2 + 44:
+            # an index byte of the 64-bit block
+            c2 = struct.unpack(">6l", b[h2 + 20:h2 + 44])
+            if c2[3]:
+                m[h2 + 44 + 8 * c2[3] + rng.randrange(c2[3])] = rng.choice([c2[4], c2[4] + 1, 255, c2[4] - 1 if c2[4] else 0])
+        elif r < 0.8 and c1[3]:
+            m[44 + 4 * c1[3] + rng.randrange(c1[3])] = rng.choice([c1[4], 255])
+        else:
+            m[rng.randrange(len(m))] ^= 1 << rng.randrange(8)
+            # a random bit flip may produce charcnt < 0 (undefined in the C++): keep it out
+            cc = [struct.unpack(">l", bytes(m[x:x + 4]))[0] for x in (40, h2 + 40) if x + 4 <= len(m)]
+            big = [struct.unpack(">l", bytes(m[x:x + 4]))[0] for base in (20, h2 + 20) for x in range(base, base + 24, 4) if x + 4 <= len(m)]
+            if any(v < 0 for v in cc) or any(abs(v) > 10 ** 6 for v in big):
+                continue
+        out.append(bytes(m))
+    return out
+
+
+def gen_tzif(files, rng, quick):
+    cases = []
+    for i, p in enumerate(files):
+        cases.append(vlib.Case("tzif%d" % i, "tzif " + p, ["TZB " + (open(p, "rb").read().hex() or "-")], "tzif-shipped"))
+    for i, p in enumerate(leap_files(12)):
+        cases.append(vlib.Case("tzleap%d" % i, "tzif " + p, ["TZB " + open(p, "rb").read().hex()], "tzif-leap"))
+    # written by the independent encoder from random tables, every version byte
+    for i in range(60 if quick else 600):
+        k = rng.randrange(1, 7)
+        offs = [rng.choice([0, 3600, -3600, 34200, -16200, 2079, -2 ** 31, 2 ** 31 - 1, rng.randrange(-50000, 50000)]) for _ in range(k)]
+        nt = rng.choice([0, 1, 2, 3, 10, 100, 300])
+        us = sorted(set(rng.choice([rng.randrange(-2 ** 31, 2 ** 31), rng.randrange(-2 ** 40, 2 ** 40), -2 ** 31, 2 ** 31 - 1, -2 ** 63, 2 ** 63 - 1])
+                        for _ in range(nt)))
+        v = rng.choice([b"\0", b"2", b"2", b"3", b"4"])
+        if v != b"2":
+            us = [u for u in us if -2 ** 31 <= u < 2 ** 31]
+        trs = [(u, rng.randrange(k)) for u in us]
+        tb = Table(offs, [(u, j) for (u, j) in trs if -2 ** 63 <= u + offs[j] < 2 ** 63])
+        cases.append(vlib.Case("tzenc%d" % i, "tzif synthetic", ["TZB " + py_tzif_encode(tb, v, rng).hex()], "tzif-encoded"))
+    # malformed
+    pick = [p for p in files if os.path.basename(p) in ("Juba", "Lord_Howe", "Gaza", "UTC", "Dublin", "Kiritimati", "Casablanca")]
+    extra = list(files)
+    rng.shuffle(extra)
+    n = 0
+    for p in pick + extra[:(4 if quick else 60)]:
+        b = open(p, "rb").read()
+        ops = ["TZB " + (m.hex() or "-") for m in tzif_mutations(b, rng, 12 if quick else 200)]
+        for j in range(0, len(ops), 40):
+            cases.append(vlib.Case("tzmut%d" % n, "tzif mutated " + p, ops[j:j + 40], "tzif-mutated"))
+            n += 1
+    return cases
+
+
 def gen_text(rng, n):
     us = set([0, 1, 999999, 1000000, 1000001, 1234567890123456, 16756761599999999, -1, -999999, -1000000, -1000001,
               UTC_FIRST * 10 ** 6, (UTC_END - 1) * 10 ** 6 + 999999, 946684799999999, 946684800000000, 100000, 99999, 10, 9])
@@ -450,6 +609,8 @@ def oracle_case(c, lines, V, tables):
             oracle_R(c, oi, int(w[1]), f, g, tb, kind, V)
         elif k == "F":
             oracle_F(c, oi, w, f, tb, kind, V)
+        elif k == "TZB":
+            oracle_TZB(c, oi, w[1], f, V)
         elif k == "TS":
             oracle_TS(c, oi, int(w[1]), ln, V)
         elif k == "BE":
@@ -472,12 +633,30 @@ def oracle_case(c, lines, V, tables):
                 V.fail(c, oi, "fromIpPort/toIp(%r) = %s, expected %s" % (text, f[1:], exp[1:]))
 
 
-def classify(tb, s_amb):
-    """which transition an ambiguity (repeat/skip) belongs to"""
+def classify(tb, cands, got_pre, got_post):
+    """Signature of the two recorded findings for an EXISTING local time with several instants
+    (cands: sorted (instant, segment)); None for any other wrong answer.
+      last : the later instant lies after the LAST transition of the table and the code returns that
+             later instant for both flags (TimeZone.cc:374-378 returns before the repeat test)
+      first: the later instant lies right after the FIRST transition and the code returns that later
+             instant for both flags (prior_trans stays the transition itself, TimeZone.cc:408-426)"""
     n = len(tb.trans)
-    if s_amb == n - 1:
+    if len(cands) != 2:
+        return None
+    (t_early, s_early), (t_late, s_late) = cands
+    if s_late != s_early + 1 or (got_pre, got_post) != (t_late, t_late):
+        return None
+    if s_late == n - 1:
         return "last"
-    if s_amb == 0:
+    if s_late == 0:
+        return "first"
+    return None
+
+
+def classify_skipped(tb, j, L, post, got):
+    """Signature of the first-transition finding for a SKIPPED local time: the gap is that of transition 0,
+    postTransition=true was requested and the code answered with record 0 (TimeZone.cc:363-367)"""
+    if j == 0 and post and got == L - tb.off(0):
         return "first"
     return None
 
@@ -529,7 +708,7 @@ def oracle_R(c, oi, t, f, g, tb, kind, V):
         return
     e_pre, e_post = cands[0][0], cands[-1][0]
     if (pre, post) != (e_pre, e_post):
-        where = classify(tb, cands[-1][1]) if len(cands) > 1 else None
+        where = classify(tb, cands, pre, post)
         msg = ("fromLocalTime(toLocalTime(%d)) = %d (postTransition=false), %d (true); the instants with that local time are %s, "
                "so the answers must be %d and %d" % (t, pre, post, [x for (x, s) in cands], e_pre, e_post))
         if where:
@@ -550,9 +729,12 @@ def oracle_F(c, oi, w, f, tb, kind, V):
     post = w[7] == "1"
     got = int(f[1])
     cands = tb.candidates(L)
+    where = None
     if cands:
         exp = cands[-1][0] if post else cands[0][0]
-        j = cands[-1][1] if len(cands) > 1 else None
+        if got != exp and not post:
+            # the only recorded wrong answer for an existing local time: the later instant where the earlier was asked
+            where = classify(tb, cands, got, cands[-1][0])
     else:
         # skipped: the transition j whose gap contains L; requested side decides the offset
         j = None
@@ -563,10 +745,11 @@ def oracle_F(c, oi, w, f, tb, kind, V):
         if j is None:
             return
         exp = L - (tb.seg_off(j) if post else tb.seg_off(j - 1))
+        if got != exp:
+            where = classify_skipped(tb, j, L, post, got)
     if got != exp:
         msg = "fromLocalTime(%s, postTransition=%s) = %d, expected %d (%s local time)" % (
             " ".join(w[1:7]), post, got, exp, "skipped" if not cands else "existing")
-        where = classify(tb, j) if j is not None else None
         if where:
             V.hit(FINDING_KEYS[where], c, oi, msg + " [at the %s transition of the table]" % where, L)
             V.note("finding-hit:" + where)
@@ -574,6 +757,32 @@ def oracle_F(c, oi, w, f, tb, kind, V):
             V.fail(c, oi, msg)
     else:
         V.note("skipped-local-time-ok" if not cands else "F-ok")
+
+
+def oracle_TZB(c, oi, hexs, f, V):
+    """the table the real reader produced is the table RFC 8536 puts into the file"""
+    b = bytes.fromhex(hexs) if hexs != "-" else b""
+    exp = py_tzif(b)
+    if c.tag in ("tzif-shipped", "tzif-encoded"):
+        if exp is None:
+            V.fail(c, oi, "oracle error: the independent TZif parser rejects a well-formed file")
+            return
+        e = ["tzif", "ok"] + exp.tab_op().split()[1:]
+        if f != e:
+            V.fail(c, oi, "readTimeZoneFile(%s): got %s, RFC 8536 says offsets %s transitions %s" % (
+                c.header, " ".join(f[1:])[:300], e[2][:120], e[3][:120]))
+        else:
+            V.note("tzif-table-ok")
+    elif c.tag == "tzif-leap":
+        if f != ["tzif", "fail"]:
+            V.fail(c, oi, "readTimeZoneFile accepted a file with leap-second records: %s" % " ".join(f)[:200])
+        else:
+            V.note("tzif-leap-rejected")
+    else:
+        # malformed input: whatever is accepted must be the table RFC 8536 reads at the place the reader looked
+        if f[:2] == ["tzif", "ok"] and exp is not None and f != ["tzif", "ok"] + exp.tab_op().split()[1:]:
+            V.note("tzif-mutated-accepted-differently (model==impl decides)")
+        V.note("tzif-mutated-" + (f[1] if len(f) > 1 else "?"))
 
 
 def oracle_TS(c, oi, us, ln, V):
@@ -723,15 +932,26 @@ def run(chk, replay=None):
         for i, p in enumerate(sorted(chosen)):
             cases.append(gen_tzfile_case("tz%d" % i, p, tables[p], rng, 60 if quick else 1500))
         chk.cov["zone_files_probed"] = len(chosen)
+        cases += gen_tzif(files, rng, quick)
         cases += gen_syn_tables(rng, 400 if quick else 6000)
         cases += gen_text(rng, 3000 if quick else 60000)
         cases += gen_inet(rng, 300 if quick else 5000, 60 if quick else 1200)
 
     t1 = time.time()
-    impl_out, crashes = vlib.run_batch_parallel(impl, cases, timeout=3000)
-    t2 = time.time()
     model_out, mcrashes = vlib.run_batch_parallel(model, cases, timeout=3000,
                                                   pre=["bash", "-c", 'ulimit -s unlimited 2>/dev/null; exec "$0"'])
+    # inputs the model classifies as outside the C++ semantics (signed overflow, negative VLA size in the TZif
+    # reader) are not handed to the real code: running undefined behaviour proves nothing either way
+    undefined_ops = 0
+    for c in cases:
+        lm = model_out.get(c.cid)
+        if lm and len(lm) == len(c.ops) + 2 and any(x == "tzif undefined" for x in lm):
+            keep = [i for i, x in enumerate(lm[1:-1]) if x != "tzif undefined"]
+            undefined_ops += len(c.ops) - len(keep)
+            c.ops = [c.ops[i] for i in keep]
+            model_out[c.cid] = [lm[0]] + [lm[1 + i] for i in keep] + [lm[-1]]
+    t2 = time.time()
+    impl_out, crashes = vlib.run_batch_parallel(impl, cases, timeout=3000)
     t3 = time.time()
 
     V = Verdicts()
@@ -781,11 +1001,12 @@ def run(chk, replay=None):
                        "and dense samples per zone file + skipped local times + random synthetic tables + timestamp text + byte order + "
                        "IPv4/IPv6 literals; distinct = (year, month) of a day / (offset, which side round-trips) of a zone probe / "
                        "distinct address line; all counted cases reach the conversion code (there is no trivial path)")
-    chk.cov["exhaustive"] = "all %d days of 1900-01-01..2500-12-31 through Date(j).yearMonthDay(), weekDay(), Date(y,m,d)" % (JLAST - JFIRST + 1)
+    chk.cov["exhaustive_part"] = "all %d days of 1900-01-01..2500-12-31 through Date(j).yearMonthDay(), weekDay(), Date(y,m,d)" % (JLAST - JFIRST + 1)
     chk.cov["oracle_counters"] = V.info
     chk.cov["zone_files_ill_formed"] = ill_formed
     chk.cov["zone_files_unreadable_by_muduo"] = unreadable
-    chk.cov["phase_s"] = {"generate": round(t1 - t_gen, 1), "impl": round(t2 - t1, 1), "model": round(t3 - t2, 1), "oracle": round(t4 - t3, 1)}
+    chk.cov["phase_s"] = {"generate": round(t1 - t_gen, 1), "model": round(t2 - t1, 1), "impl": round(t3 - t2, 1), "oracle": round(t4 - t3, 1)}
+    chk.cov["tzif_inputs_outside_cxx_semantics_not_run"] = undefined_ops
     chk.cov["traces_validated_against_impl"] = len(cases) - len(corr_bad)
     for c in cases:
         if c.tag in ("tzfile", "inet", "tzsyn-wf") and len(chk.cov["samples"]) < 5 and c.cid in impl_out:
